@@ -148,50 +148,99 @@ def field_laws(ctx):
 def param_cache_replay(ctx):
     """spec/ParamCache.tla: every sequence of AssignNew / MutateAndReassign / Read (5 operations) is replayed on a real
     material of each law class with a scalar and with a per-element field parameter; after every Read the stiffness must be
-    the one of a freshly built material with the current parameter values."""
+    the one of a freshly built material with the current parameter values.  The behaviours of ParamCache_source.cfg add
+    MutateSource (the array is modified and NOT assigned again): which content the next read shows is then free, but the
+    stiffness and the compliance read together must be mutually inverse (Paired); they are replayed on field parameters and
+    on Anisotropic laws given by their matrix (Voigt and Kelvin-Mandel notation, homogeneous and per-element)."""
     from EasyFEA import Models
 
-    res = ctx.tlc_must_hold("ParamCache", "ParamCache_none.cfg", what="ReadIsCurrent / FlagSound", workers=4)
+    res = ctx.tlc_must_hold("ParamCache", "ParamCache_none.cfg", what="ReadIsCurrent / FlagSound / Paired", workers=4)
     ctx.tlc_must_fail("ParamCache", "ParamCache_skip_equal.cfg", expect="FlagSound")
+    res2 = ctx.tlc_must_hold("ParamCache", "ParamCache_source.cfg", what="ReadIsCurrent / FlagSound / Paired with MutateSource", workers=4)
+    ctx.tlc_must_fail("ParamCache", "ParamCache_alias_c.cfg", expect="Paired")
     seqs = sorted(o["ops"] for o in res.prints.get("OPS", []))  # TLC prints in worker order: sort for a reproducible selection
+    seqs2 = sorted(o["ops"] for o in res2.prints.get("OPS", []) if "MutateSource" in o["ops"])
     E = Models.Elastic
     Ne = 4
+    L = np.eye(6) + np.tril(np.arange(36.0).reshape(6, 6) % 5 - 2, -1) * 0.1
+    C0 = L @ L.T * 10.0   # a positive definite 6 x 6 matrix with every coupling
+
+    def aniso(voigt, field):
+        def mk(v):
+            return E.Anisotropic(3, v, voigt)
+        return mk
+
     makers = {
         "Isotropic": lambda v: E.Isotropic(2, E=v, v=0.25, planeStress=True),
         "TransverselyIsotropic": lambda v: E.TransverselyIsotropic(3, El=v, Et=4.0, Gl=2.0, vl=0.25, vt=0.2),
         "Orthotropic": lambda v: E.Orthotropic(3, E1=v, E2=6.0, E3=4.0, G23=1.5, G13=2.0, G12=2.5, v23=0.2, v13=0.25, v12=0.3),
+        "Anisotropic/voigt": aniso(True, False),
+        "Anisotropic/kelvin-mandel": aniso(False, False),
     }
     names = {"Isotropic": "E", "TransverselyIsotropic": "El", "Orthotropic": "E1"}
+
+    def assign(mat, cls, cur):
+        if cls.startswith("Anisotropic"):
+            mat.Set_C(cur, cls.endswith("voigt"))
+        else:
+            setattr(mat, names[cls], cur)
+
+    def paired(mat):
+        C, S = np.asarray(mat.C, dtype=float), np.asarray(mat.S, dtype=float)
+        I = np.eye(C.shape[-1])
+        return float(np.abs(C @ S - I).max())
+
+    nseq = 0
     for cls, mk in makers.items():
+        an = cls.startswith("Anisotropic")
         for field in (False, True):
-            for si, ops in enumerate(seqs):
-                if (si + (1 if field else 0)) % (1 if ctx.thorough else 3) != 0:
-                    continue
-                base = np.linspace(8.0, 11.0, Ne) if field else 9.0
-                cur = base.copy() if field else base
+            plan = [(ops, False) for si, ops in enumerate(seqs) if (si + (1 if field else 0)) % (1 if ctx.thorough else 3) == 0]
+            if field or an:
+                plan += [(ops, True) for si, ops in enumerate(seqs2) if si % (1 if ctx.thorough else 2) == 0]
+            for ops, with_source in plan:
+                if an:
+                    base = np.stack([C0 * (1 + 0.1 * e) for e in range(Ne)]) if field else C0.copy()
+                else:
+                    base = np.linspace(8.0, 11.0, Ne) if field else 9.0
+                mutable = isinstance(base, np.ndarray)
+                sel = slice(None) if (an and not field) else slice(0, Ne // 2)   # a homogeneous matrix is scaled as a whole (it stays symmetric)
+                cur = base.copy() if mutable else base
                 mat = mk(cur)
+                pending = False   # modified since the material was last told
                 k = 0
                 for op in ops:
                     k += 1
                     if op == "AssignNew":
-                        cur = (cur * 1.1 + 0.3) if field else cur * 1.1 + 0.3   # a new object
-                        setattr(mat, names[cls], cur)
+                        cur = (cur * 1.1 + (0.0 if an else 0.3))   # a new object
+                        assign(mat, cls, cur)
+                        pending = False
                     elif op == "MutateAndReassign":
-                        if field:
-                            cur[: Ne // 2] *= 0.8                                  # the same array, modified in place ... (factors keep the moduli admissible over five operations)
-                            setattr(mat, names[cls], cur)                          # ... and assigned again
+                        if mutable:
+                            cur[sel] *= 0.8        # the same array, modified in place ... (factors keep the moduli admissible over five operations)
                         else:
                             cur = cur * 0.8
-                            setattr(mat, names[cls], cur)
+                        assign(mat, cls, cur)                          # ... and assigned again
+                        pending = False
+                    elif op == "MutateSource":
+                        if mutable:
+                            cur[sel] *= 0.9        # the same array, modified in place, nothing assigned
+                            pending = True
                     else:
-                        C = np.asarray(mat.C, dtype=float)
-                        Cf = np.asarray(mk(cur.copy() if field else cur).C, dtype=float)
-                        if C.shape != Cf.shape or np.abs(C - Cf).max() > 1e-12 * np.abs(Cf).max():
-                            ctx.violation(f"param-change/{cls}/{'field' if field else 'scalar'}", f"{cls} ({'per-element field' if field else 'scalar'} parameter {names[cls]}): after {' -> '.join(ops[:k])} the stiffness read is not the one of the current parameters (max relative {np.abs(C - Cf).max() / np.abs(Cf).max() if C.shape == Cf.shape else 'shape'})", {"cls": cls, "field": field, "ops": ops[:k]})
+                        err = paired(mat)
+                        if err > 1e-9:
+                            ctx.violation(f"param-paired/{cls}/{'field' if field else 'homogeneous'}", f"{cls} ({'per-element' if field else 'homogeneous'}): after {' -> '.join(ops[:k])} the stiffness and the compliance read together are not mutually inverse (max |C S - I| = {err:.3g})", {"cls": cls, "field": field, "ops": ops[:k]})
                             break
+                        if pending:
+                            continue   # which content is shown is outside the statement
+                        C = np.asarray(mat.C, dtype=float)
+                        Cf = np.asarray(mk(cur.copy() if mutable else cur).C, dtype=float)
+                        if C.shape != Cf.shape or np.abs(C - Cf).max() > 1e-12 * np.abs(Cf).max():
+                            ctx.violation(f"param-change/{cls}/{'field' if field else 'scalar'}", f"{cls} ({'per-element field' if field else 'scalar / homogeneous'} parameter): after {' -> '.join(ops[:k])} the stiffness read is not the one of the current parameters (max relative {np.abs(C - Cf).max() / np.abs(Cf).max() if C.shape == Cf.shape else 'shape'})", {"cls": cls, "field": field, "ops": ops[:k]})
+                            break
+                nseq += 1
                 ctx.count(1, distinct_key=("param-cache", cls, field, tuple(ops)))
                 ctx.traces(1)
-    ctx.section("param_cache", sequences=len(seqs), classes=list(makers), forms=["scalar", "per-element field"])
+    ctx.section("param_cache", sequences=len(seqs), sequences_with_mutate_source=len(seqs2), replayed=nseq, classes=list(makers), forms=["scalar / homogeneous", "per-element field"])
 
 
 def run(ctx):
